@@ -118,12 +118,12 @@ func runC19(c *Ctx) {
 		c.CheckRets(which, "C19/tendermint", rr, NilErr(e), 1, nil,
 			Req{Name: "time-delay-passed", Any: [][]string{
 				{"eq(param#3, 0)"},
-				{"le(binop:+(~and(?pt, call:sdk.BigEndianToUint64(call:iface:*KVStore.Get(param#1, ~and(~in(param#2), ~in(gv:light-clients/07-tendermint.KeyProcessedTime))))), param#3), conv:uint64(call:time.Time.UnixNano(call:sdk.Context.BlockTime(param#0))))",
+				{"le(binop:+(~and(?pt, call:sdk.BigEndianToUint64(call:iface:*KVStore.Get(param#1, ~key(\"consensusStates/{s}/processedTime\", param#2)))), param#3), conv:uint64(call:time.Time.UnixNano(call:sdk.Context.BlockTime(param#0))))",
 					"le(?pt, binop:+(?pt, param#3))"},
 			}},
 			Req{Name: "block-delay-passed", Any: [][]string{
 				{"eq(param#4, 0)"},
-				{"F(call:$clientT.Height.LT(call:$clientT.GetSelfHeight(param#0), ~wf(RevisionHeight, binop:+(~and(?ph, field:RevisionHeight(extract:0(call:$clientT.ParseHeight(conv:string(call:iface:*KVStore.Get(param#1, ~and(~in(param#2), ~in(gv:light-clients/07-tendermint.KeyProcessedHeight)))))))), param#4))))",
+				{"F(call:$clientT.Height.LT(call:$clientT.GetSelfHeight(param#0), ~wf(RevisionHeight, binop:+(~and(?ph, field:RevisionHeight(extract:0(call:$clientT.ParseHeight(conv:string(call:iface:*KVStore.Get(param#1, ~key(\"consensusStates/{s}/processedHeight\", param#2))))))), param#4))))",
 					"le(param#4, binop:+(?ph, param#4))"},
 			}},
 		)
